@@ -45,8 +45,9 @@ def judge(h, obs):
         elif e["op"] == "supported":
             if prev is not None and state_of(prev) != state_of(o):
                 bad.append("step %d: Supported() changed process state" % o["step"])
-            if o["result"] != "true":
-                bad.append("step %d: Supported() = %s on a kernel with seccomp" % (o["step"], o["result"]))
+            blocked = 0 in e["state"][e["t"]]["chain"]
+            if o["result"] != ("false" if blocked else "true"):
+                bad.append("step %d: Supported() = %s (%s)" % (o["step"], o["result"], "seccomp(2) is answered with ENOSYS on this thread" if blocked else "on a kernel with seccomp"))
         # model/real projection (drift diagnostic and kernel-model validation)
         for t, exp in e["state"].items():
             if t == "pool":
@@ -58,7 +59,7 @@ def judge(h, obs):
             if r is None:
                 drift.append("step %d: thread %s missing" % (o["step"], t))
                 continue
-            if sorted(r["in_force"]) != sorted(exp["chain"]) or bool(r["nnp"]) != exp["nnp"] or r["filters"] != len(exp["chain"]):
+            if sorted(r["in_force"]) != sorted(x for x in exp["chain"] if x != 0) or bool(r["nnp"]) != exp["nnp"] or r["filters"] != len(exp["chain"]):
                 drift.append("step %d: thread %s real in_force=%s nnp=%d filters=%d, spec chain=%s nnp=%s" % (o["step"], t, r["in_force"], r["nnp"], r["filters"], exp["chain"], exp["nnp"]))
         if o["result"] in ("nil", "err", "true", "false") and e.get("res") and o["result"] != e["res"]:
             drift.append("step %d: result real %s, spec %s" % (o["step"], o["result"], e["res"]))
@@ -85,6 +86,8 @@ def tags(h):
                 f.add("oversize")
             elif e["res"] == "nil":
                 f.add("ok-tsync" if tsync else "ok-plain")
+            elif 0 in e["state"][e["caller"]]["chain"]:
+                f.add("enosys")
             elif not h["priv"] and not e["state"][e["caller"]]["nnp"]:
                 f.add("eacces")
             else:
@@ -120,18 +123,21 @@ def check(ctx, replay=None):
     jobs = [dict(module="Loader", cfg=lf.mc_cfg(), name="Loader_3t_3l", timeout=3000)]
     if th:
         jobs.append(dict(module="Loader", cfg=lf.mc_cfg(threads="{t1, t2, t3, t4}", maxloads=3), name="Loader_4t_3l", timeout=3000))
-    # 2. histories for replay
+    # 2. histories for replay: the full alphabet without, and a reduced alphabet with, an enclosing filter that blocks seccomp(2)
     jobs.append(dict(module="LoaderGen", cfg=lf.gen_cfg("{pool, t1, t2}", 3 if th else 2, FLAGS, '{"valid", "invalid", "oversize"}', "{t1, t2}", False),
                      name="LoaderGen", timeout=3000))
-    res = ctx.tlc_many(jobs, parallel=2)
-    for r in res[:-1]:
+    jobs.append(dict(module="LoaderGen", cfg=lf.gen_cfg("{pool, t1, t2}", 2, '{{}, {"TSYNC"}, {"TSYNC", "LOG"}}', '{"valid"}', "{t1, t2}", False, allow_block=True),
+                     name="LoaderGenBlock", timeout=3000))
+    res = ctx.tlc_many(jobs, parallel=3)
+    for r in res[:-2]:
         if r["violated"]:
-            ctx.note("TLC: %s violated in %s (model level)" % (r["violated"], r["name"]))
-    hists = lf.histories(res[-1]["out"])
+            raise vlib.Machinery("TLC: %s violated in %s: the specification of the unchanged design does not satisfy its own invariant" % (r["violated"], r["name"]))
+    for r in res[-2:]:
+        ctx.cov["states"] -= r["distinct"]
+        ctx.cov["transitions"] -= r["generated"]
+    hists = lf.histories(res[-2]["out"]) + [h for h in lf.histories(res[-1]["out"]) if any(e["op"] == "block" for e in h["hist"])]
     if not hists:
         raise vlib.Machinery("no histories generated")
-    ctx.cov["states"] -= res[-1]["distinct"]
-    ctx.cov["transitions"] -= res[-1]["generated"]
     n = 1500 if th else 220
     picked, nclasses = lf.sample(hists, n, ctx.seed, features)
     d = lf.child_bin(ctx)
@@ -180,7 +186,7 @@ def check(ctx, replay=None):
         raise vlib.Machinery("%d of %d children failed" % (failed_children, len(picked)))
     ctx.cov["histories_generated"] = len(hists)
     ctx.cov["replayed_by_tag"] = seen_tags
-    for need in ("refused-tsync", "eacces", "badflags", "oversize", "invalid", "ok-tsync", "ok-plain", "supported", "hook-spawn"):
+    for need in ("refused-tsync", "eacces", "enosys", "badflags", "oversize", "invalid", "ok-tsync", "ok-plain", "supported", "hook-spawn"):
         if not seen_tags.get(need):
             raise vlib.Machinery("no replayed history exercised '%s'" % need)
     ctx.cov["history_classes"] = nclasses
